@@ -93,6 +93,60 @@ def run(ctx):
     diff_tie(ctx, "for-simple", exe, ["simple"], "simple", gen_simple(ctx), oracle=simple_oracle, describe=describe_simple,
              nontrivial=lambda c, t: any(c[i + 1] - c[i] > c[i + 2] for i in range(0, len(c), 3)),
              bucket=lambda c: "simple maxbits=%d" % max((c[i + 1] - c[i]).bit_length() for i in range(0, len(c), 3)))
+    # ---- the range pool of auto / affinity partitioner (range_vector<Range, 8>), white box, op by op against RvecModel
+    prng = ctx.rng
+    rcases = []
+    for _ in range(ctx.scale(400, 10000)):
+        b = prng.choice([0, 0, 5, -100])
+        n = prng.choice([1, 2, 7, 100, 1000, 2 ** 20, 2 ** 40])
+        g = prng.choice([1, 1, 2, 10])
+        c = [b, b + n, g]
+        for _ in range(prng.randint(3, 60)):
+            r_ = prng.random()
+            if r_ < 0.35:
+                c += [1, prng.choice([0, 1, 2, 3, 4, 6, 8, 12, 20, 255])]
+            elif r_ < 0.7:
+                c += [2, 0]
+            else:
+                c += [3, 0]
+        rcases.append(c)
+
+    def rvec_desc(c):
+        return "range_vector<blocked_range<long>, 8> over [%d,%d) grain %d: %s" % (c[0], c[1], c[2], " ".join(
+            {1: "split_to_fill(%d)" % c[i + 1], 2: "run back / pop_back", 3: "offer front / pop_front"}.get(c[i], "?") for i in range(3, len(c) - 1, 2)))
+
+    def rvec_oracle(c, toks):
+        """what was run + offered + still pooled tiles the range: every piece inside the range, non-empty, pairwise disjoint, together the whole range"""
+        if "-7" not in toks:
+            return ("range-pool-crash", rvec_desc(c)[:400] + ": " + " ".join(toks[-8:]))
+        vals = [int(x) for x in toks]
+        k = vals.index(-7)
+        pieces = []
+        i = 0
+        p = 3
+        while p + 1 < len(c) and i < k:
+            op = c[p]; p += 2
+            if op == 1:
+                i += 3
+            elif vals[i] == -1 or vals[i] == -2:
+                i += 1
+            else:
+                pieces.append((vals[i], vals[i + 1])); i += 6
+        rest = vals[k + 1:]
+        pieces += [(rest[j], rest[j + 1]) for j in range(0, len(rest), 3)]
+        pieces.sort()
+        pos = c[0]
+        for (lo, hi) in pieces:
+            if lo != pos or hi <= lo:
+                return ("range-pool-not-a-tiling", "%s: the pieces run, offered and still pooled are %s - not a tiling of [%d,%d) (gap, overlap, empty or foreign piece at %d)" % (rvec_desc(c)[:600], pieces[:12], c[0], c[1], pos))
+            pos = hi
+        if pos != c[1]:
+            return ("range-pool-not-a-tiling", "%s: pieces end at %d" % (rvec_desc(c)[:600], pos))
+        return None
+    ctx.rules.append("range-pool: range_vector<blocked_range<long>, 8> (the pool of auto / affinity partitioner's work_balance) driven white box through split_to_fill(depth 0..255) / back+pop_back / "
+                     "front+pop_front scripts of 3-60 operations (the ring wraps many times): my_head, my_tail, my_size, every range and depth handed out and the final pool equal RvecModel's; "
+                     "oracle: run + offered + pooled pieces tile the range")
+    diff_tie(ctx, "range-pool", exe, ["rvec"], "rvec", rcases, oracle=rvec_oracle, describe=rvec_desc, bucket=lambda c: "rvec n=2^%d" % (c[1] - c[0]).bit_length())
     # ---- strided form parallel_for(first, last, step, f): Index arithmetic of the trip count, at the boundaries of the index types
     LIM = {0: (-2 ** 31, 2 ** 31 - 1), 1: (0, 2 ** 32 - 1), 2: (0, 2 ** 64 - 1), 3: (-2 ** 63, 2 ** 63 - 1)}
     scases = []
@@ -326,4 +380,6 @@ def replay(ctx, rep):
         rc, lines, err = ctx.run_driver(exe, [rep["mode"]], [rep["case"]], timeout=120)
         print("\n".join(lines))
         return
+    if rep.get("tie") == "range-pool":
+        return diff_tie(ctx, "range-pool", exe, ["rvec"], "rvec", [rep["case"]])
     diff_tie(ctx, "for-simple", exe, ["simple"], "simple", [rep["case"]], oracle=simple_oracle, describe=describe_simple)
